@@ -352,14 +352,14 @@ func suiteC08(cfg Config, res *Result) {
 		}
 		cases = append(cases, pc)
 		if !g.nestBox {
-			wants[pc.Req()] = e
+			wants[pc.Key()] = e
 		} else {
 			cases[len(cases)-1].Label = "nested-box"
 		}
 	}
 	runProgCases(cfg, res, cases, "c08", func(c ProgCase, o ImplOutcome) bool { return strings.Count(c.Src, ".")+strings.Count(c.Src, "[") >= 2 },
 		func(c ProgCase, o ImplOutcome) *Finding {
-			e, ok := wants[c.Req()]
+			e, ok := wants[c.Key()]
 			if !ok {
 				return nil
 			}
@@ -470,10 +470,10 @@ func suiteC08Calls(cfg Config, res *Result) {
 		}
 		pc := ProgCase{Src: "{{ " + d.expr + " }}", Ctx: &ct, Label: "direct"}
 		cases = append(cases, pc)
-		wantDirect[pc.Req()] = out
+		wantDirect[pc.Key()] = out
 	}
 	runProgCases(cfg, res, cases, "c08c", nil, func(c ProgCase, o ImplOutcome) *Finding {
-		if want, ok := wantDirect[c.Req()]; ok && (o.Class != "ok" || o.Out != want) {
+		if want, ok := wantDirect[c.Key()]; ok && (o.Class != "ok" || o.Out != want) {
 			return &Finding{Kind: "oracle", Proj: "resolver", Sig: "c08-call-wrong-value", Case: c.String(), Impl: o.Canon() + " " + o.Msg, Model: "renders like the function's result bound directly: ok " + hxb(want)}
 		}
 		if o.Class == "panic" {
@@ -585,12 +585,12 @@ func suiteC08Shadow(cfg Config, res *Result) {
 		pc.Src = src
 		pc.Label = "shadow"
 		cases = append(cases, pc)
-		wants[pc.Req()] = want
-		nontriv[pc.Req()] = levels >= 2
+		wants[pc.Key()] = want
+		nontriv[pc.Key()] = levels >= 2
 	}
-	runProgCases(cfg, res, cases, "c08s", func(c ProgCase, o ImplOutcome) bool { return nontriv[c.Req()] },
+	runProgCases(cfg, res, cases, "c08s", func(c ProgCase, o ImplOutcome) bool { return nontriv[c.Key()] },
 		func(c ProgCase, o ImplOutcome) *Finding {
-			want := wants[c.Req()]
+			want := wants[c.Key()]
 			if o.Class != "ok" || o.Out != want {
 				return &Finding{Kind: "oracle", Proj: "resolver", Sig: "c08-shadowing", Case: c.String(), Impl: o.Canon() + " " + o.Msg, Model: "ok " + hxb(want)}
 			}
